@@ -150,12 +150,12 @@ def run(tier, seed, replay=None):
             root = os.path.join(box, "p")
             write_tree(root, [("a", b"x" * 100), ("b/c", b"y" * 40000)])
             for v in route_values:
-                for route in ("kw", "kwstr", "cli", "config"):
+                for route in ("kw", "kwstr", "cli", "config", "cli+config"):
                     got = _route(route, v, root, box, PLE)
                     want = spec_accepts(v)
                     if route == "kw" and not v:
                         continue  # falsy keyword = not supplied (DESIGN §8 C12 scope note)
-                    if route in ("kwstr", "cli", "config") and v < 0:
+                    if route in ("kwstr", "cli", "config", "cli+config") and v < 0:
                         want = None      # "-1" is not a decimal string
                     exp = ("ok", want) if want is not None else ("ple", None)
                     run.case(f"{route}:{v}", True, classes=[route])
@@ -302,6 +302,13 @@ def _route(route, v, root, box, PLE):
             # quiet / verbose must not change whether a value is rejected
             flags = [[], [], ["-q"], ["-v"]][(len(str(v)) + (v if isinstance(v, int) and abs(v) < 10 ** 6 else 0)) % 4]
             impl.cli(flags + ["create", "--piece-length=" + str(v), "--prog", "0", "-o", out, root])
+        elif route == "cli+config":
+            # the flag together with a configuration file that says nothing about the piece length
+            cfg = os.path.join(box, "other.ini")
+            with open(cfg, "w") as fd:
+                fd.write("[config]\ncomment = from the config file\n")
+            impl.cli(["create", "--piece-length=" + str(v), "--config", "--config-path", cfg, "--prog", "0",
+                      "-o", out, root])
         else:
             cfg = os.path.join(box, "t.ini")
             with open(cfg, "w") as fd:
